@@ -58,10 +58,12 @@ def _compile_script(script_path: str) -> CompilerOutput:
     # Load the program from its path: importing it by name would return an already
     # imported or standard-library module of the same name (json.py, os.py, ...) and
     # cannot import file names that contain dots.
-    spec = importlib.util.spec_from_file_location(script_name, script_path)
-    script = importlib.util.module_from_spec(spec)
-    spec.loader.exec_module(script)
-    timer.stop("nada_dsl.compile.compile.__import__")
+    try:
+        spec = importlib.util.spec_from_file_location(script_name, script_path)
+        script = importlib.util.module_from_spec(spec)
+        spec.loader.exec_module(script)
+    finally:
+        timer.stop("nada_dsl.compile.compile.__import__")
 
     try:
         main = getattr(script, "nada_main")
